@@ -404,6 +404,8 @@ var c18LintPrograms = []string{
 	"text T {\n  poryswitch(LANG) {\n    DE: format(\"a b\", \"font_de\")\n    _: format(\"c d\", \"font_x\", 90)\n  }\n}",
 	"script S {\n  poryswitch(GAME) {\n    RUBY { cmd(moves(poryswitch(LANG) { DE: walk_up }))\n }\n  }\n  if (av(format(\"q\", \"f2\")) == 1) {\n    c\n  }\n}",
 	"movement M {\n  poryswitch(GAME) {\n    RUBY: walk_up\n  }\n}\nmart Z {\n  poryswitch(GAME) {\n    RUBY { ITEM_A }\n  }\n}",
+	// format() parameters of huge magnitude (beyond 2^61, beyond 64 bits)
+	"text T {\n  format(\"a b c\", numLines=4611686018427387904)\n}\ntext U {\n  format(\"a b c\", 99999999999999999999, numLines=99999999999999999999, cursorOverlapWidth=9223372036854775807)\n}",
 }
 
 func c18LintAcceptCase(i int) *Case {
